@@ -83,6 +83,7 @@ type T struct {
 	careful   bool // print every key before running it (crash isolation)
 	skipKeys  map[string]bool
 	deadline  time.Time
+	lastMem   time.Time
 
 	out       *bufio.Writer
 	seen      map[uint64]struct{}
@@ -119,6 +120,14 @@ type workerResult struct {
 func (t *T) Tier() string   { return t.tier }
 func (t *T) Thorough() bool { return t.tier == "thorough" }
 func (t *T) Stopped() bool  { return t.stopped }
+
+// memCap: live-heap cap per worker (VLIB_MEM_CAP_MIB, default 2560 MiB: 16 workers stay below 40 GiB)
+func memCap() uint64 {
+	if v, err := strconv.ParseUint(os.Getenv("VLIB_MEM_CAP_MIB"), 10, 64); err == nil && v > 0 {
+		return v << 20
+	}
+	return 2560 << 20
+}
 
 // Progress tells the parent that this worker is alive (use inside long single cases or long
 // pre-computations so that the hang guard does not fire).
@@ -224,6 +233,22 @@ func (t *T) Case(key string, fn func() *Outcome) {
 		if now.After(t.deadline) {
 			t.stopped = true
 			t.res.TimedOut = true
+		}
+		// memory guard: a harness that leaks must end as "not exhaustive", never by starving the
+		// machine (16 workers share it). Checked every few seconds; a forced collection first.
+		if now.Sub(t.lastMem) > 3*time.Second {
+			t.lastMem = now
+			var ms runtime.MemStats
+			runtime.ReadMemStats(&ms)
+			if ms.HeapAlloc > memCap() {
+				debug.FreeOSMemory()
+				runtime.ReadMemStats(&ms)
+				if ms.HeapAlloc > memCap() {
+					t.stopped = true
+					t.res.TimedOut = true
+					t.res.Notes = append(t.res.Notes, fmt.Sprintf("worker %d stopped enumerating: live heap %d MiB above the cap of %d MiB", t.shard, ms.HeapAlloc>>20, memCap()>>20))
+				}
+			}
 		}
 		if !t.careful && now.Sub(t.lastFlush) > 2*time.Second {
 			t.lastFlush = now
@@ -359,6 +384,13 @@ func newT(spec *Spec, tier string, shard, n int) *T {
 	t.res.Known = map[string]int64{}
 	t.res.KnownEx = map[string]string{}
 	t.deadline = time.Now().Add(deadlineFor(spec, tier))
+	// the parent's hard stop (twice the deadline after ITS start) also bounds re-runs of a shard
+	// after a worker death, which would otherwise each get a fresh deadline
+	if v, err := strconv.ParseInt(os.Getenv("VLIB_HARD_STOP"), 10, 64); err == nil && v > 0 {
+		if hs := time.Unix(v, 0); hs.Before(t.deadline) {
+			t.deadline = hs
+		}
+	}
 	t.lastFlush = time.Now()
 	t.lastTick = time.Now()
 	return t
@@ -572,6 +604,8 @@ func parentMain(spec *Spec, tier string) int {
 		os.Setenv("VLIB_SCRATCH", dir)
 		defer os.RemoveAll(dir)
 	}
+	hardStop := t0.Add(2 * deadlineFor(spec, tier))
+	os.Setenv("VLIB_HARD_STOP", strconv.FormatInt(hardStop.Unix(), 10))
 	n := nWorkers(spec)
 	seed := int64(0)
 	if v := os.Getenv("VERIF_SEED"); v != "" {
@@ -597,6 +631,13 @@ func parentMain(spec *Spec, tier string) int {
 			fmt.Fprintf(os.Stderr, "[%s] worker %d/%d: %v — isolating\n%s\n", spec.ID, shard, n, err, lastLines(errTail, 6))
 			var skip []string
 			for round := 0; round < 12; round++ {
+				if time.Now().After(hardStop) {
+					mu.Lock()
+					total.Notes = append(total.Notes, fmt.Sprintf("worker %d: isolation abandoned, twice the deadline has passed", shard))
+					total.TimedOut = true
+					mu.Unlock()
+					return
+				}
 				res, lastKey, errTail2, err2 := runWorker(spec, tier, shard, n, true, skip)
 				if err2 == nil {
 					mu.Lock()
